@@ -53,8 +53,11 @@ def gen_case(rng, segs, root=None, kind="random"):
 
 def payload(case, light=False):
     p = case_payload(case["segs"], [], None, [], [], [])
-    return {"segs": p["segs"], "groups": case["groups"], "root": case["root"], "reorder": case["reorder"],
-            "optimise": case["optimise"], "light": light}
+    d = {"segs": p["segs"], "groups": case["groups"], "root": case["root"], "reorder": case["reorder"],
+         "optimise": case["optimise"], "light": light}
+    if case.get("history"):
+        d["history"] = case["history"]
+    return d
 
 
 STORED = [
@@ -71,6 +74,68 @@ STORED = [
                       [3, 0, F(1), (F(0), F(10), F(0), F(10)), (F(0), F(14), F(3), F(10))],
                       [4, 3, F(1), None, (F(0), F(14), F(8), F(10))]], 0),
 ]
+
+
+QUERY_NAMES = ("get_actual_proximal", "get_segment_length", "get_segment_adjacency_list", "get_graph",
+               "get_morphology_root", "get_branching_points", "get_extremeties", "get_distance",
+               "get_all_distances_from_segment", "get_segments_at_distance", "get_ordered_segments_in_groups")
+
+
+def history_cases(ck):
+    """histories on ONE Cell object before the measured sectioning call (deterministic list, a few trees):
+    every C13 query method once, all of them, sectioning twice, sectioning / queries / sectioning from another root.
+    The model is a pure function of the cell's segments and groups, so the result must be what a freshly built equal
+    cell gives, whatever the methods left cached on the object (cell.adjacency_list, cell.cell_graph)."""
+    rng = ck.rng
+    out = []
+    trees = [[list(x) for x in STORED[1][1]]]
+    for shape in ("uniform", "binary", "bushy")[:ck.n(2, 3)]:
+        trees.append(gen_tree(rng, rng.randrange(6, 12), shape=shape, idstyle=rng.choice(["perm", "sparse", "rootnz"]),
+                              prox_prob=0.4, doc="shuffle"))
+    for segs in trees:
+        ref = reference(segs)
+        sids = [x[0] for x in segs]
+        root = ref["root"]
+        inner = [i for i in sids if i != root and i in ref["kids"]] or [root]
+        hs = [[["query", q]] for q in QUERY_NAMES]
+        hs.append([["all_queries"]])
+        hs.append([["section", root, True, False]])                                   # sectioning twice
+        hs.append([["section", root, False, True], ["all_queries"]])                  # ... with queries in between
+        hs.append([["query", "get_graph"], ["section", rng.choice(inner), True, False], ["query", "get_extremeties"]])
+        hs.append([["query", "get_distance"], ["query", "get_segment_adjacency_list"]])   # cache refreshed by the user
+        for k, h in enumerate(hs):
+            c = gen_case(rng, [list(x) for x in segs], root=(root if k % 3 else rng.choice(sids)),
+                         kind="history:" + "+".join(st[0] if st[0] != "query" else st[1] for st in h))
+            if len(c["groups"]) == 0:
+                c["groups"] = [["all", list(sids), [], None]]
+            c["reorder"], c["optimise"] = bool(k % 2), False
+            c["history"] = h
+            out.append(c)
+    return out
+
+
+def derive_history_case(ck, case, out):
+    """history case -> the case the measured call actually saw (state read back from the object just before it),
+    plus the checks that only a history can fail"""
+    pre_segs = rows_exact(out["pre_segs"])
+    only_queries = all(st[0] in ("query", "all_queries") for st in case["history"])
+    if only_queries and (jq(pre_segs) != jq([list(x) for x in case["segs"]]) or out["pre_groups"] != case["groups"]):
+        ck.witness("C16:history:query-altered-the-cell", "a query method changed the cell's segments or groups",
+                   input=payload(case), expected={"segs": jq(case["segs"]), "groups": case["groups"]},
+                   observed={"segs": jq(pre_segs), "groups": out["pre_groups"]})
+    same = {"call": out["call"], "segs": out["segs"], "groups": out["groups"]}
+    if out["fresh"] != same:
+        ck.witness("C16:history-dependence:result-differs-from-a-fresh-equal-cell",
+                   "create_unbranched_segment_group_branches on a Cell that went through %s gives another result than on a "
+                   "freshly built cell with equal segments and groups" % json.dumps(case["history"]),
+                   input=payload(case), expected={"fresh equal cell": out["fresh"]},
+                   observed={"same object": same, "cell.adjacency_list left by the history": out["adj_cached"]})
+    d = dict(case)
+    d["orig"] = case
+    d["segs"], d["groups"] = pre_segs, out["pre_groups"]
+    d["ref"] = reference(pre_segs)
+    d["history"] = case["history"]
+    return d
 
 
 def gen_cases(ck):
@@ -103,6 +168,7 @@ def gen_cases(ck):
         segs = gen_tree(rng, n, shape=rng.choice(["uniform", "chain", "deep", "bushy"]), idstyle=rng.choice(["perm", "sparse"]),
                         prox_prob=rng.choice([0.2, 0.6]), doc="shuffle")
         cases.append(gen_case(rng, segs, kind="random:big"))
+    cases += history_cases(ck)
     return cases
 
 
@@ -221,6 +287,11 @@ def witness_key(clause, case):
     return "C16:" + clause
 
 
+def wit_input(case):
+    """what to store for a replay: the case as generated (with its history), not the state read back"""
+    return payload(case.get("orig", case))
+
+
 # ------------------------------------------------------------------------------------------ Coq terms
 def cgroup(g):
     return "(G %s %s %s %s)" % (coq_str(g[0]), clist(g[1], cz), clist(g[2], coq_str), copt(g[3], coq_str))
@@ -256,6 +327,16 @@ def chain_segs(n):
     return segs
 
 
+def fork_chain_segs(n):
+    """an unbranched run of n segments (only the root has a proximal point; every attachment at fraction 1), whose last
+    segment forks into two leaves: the fork children get their proximal made explicit through a proximal-less chain that is
+    longer than the interpreter's recursion limit"""
+    segs = chain_segs(n)
+    segs.append([n, n - 1, F(1), None, (F(n), F(1), F(0), F(1))])
+    segs.append([n + 1, n - 1, F(1), None, (F(n), F(-1), F(0), F(1))])
+    return segs
+
+
 def caterpillar_segs(depth):
     segs = [[0, None, None, (F(0), F(0), F(0), F(1)), (F(1), F(0), F(0), F(1))]]
     for i in range(1, depth):
@@ -265,17 +346,19 @@ def caterpillar_segs(depth):
 
 
 def big_inputs(ck):
-    # (a) a plain chain longer than the interpreter's recursion limit: handled by the while loop
+    # (a) an unbranched run longer than the interpreter's recursion limit, ending in a fork: the run is handled by the
+    #     while loop, the fork children's proximal by get_actual_proximal at fraction 1 (no recursion)
     n = ck.n(1200, 5000)
-    case = {"segs": chain_segs(n), "groups": [["all", list(range(n)), [], None]], "root": 0, "reorder": True,
+    case = {"segs": fork_chain_segs(n), "groups": [["all", list(range(n + 2)), [], None]], "root": 0, "reorder": False,
             "optimise": False, "kind": "stored:chain"}
     case["ref"] = reference(case["segs"])
     out = ck.impl("c16_impl.py", {"cases": [payload(case, light=True)]}, timeout=900)["results"][0]
-    ck.count(1, nontrivial_key="chain-%d" % n, sample={"kind": "chain", "segments": n, "groups_after": len(out["groups"])})
+    ck.count(1, nontrivial_key="chain-%d-fork" % n, sample={"kind": "chain+fork", "segments": n + 2, "groups_after": len(out["groups"])})
     ck.tally("stored:chain-longer-than-recursion-limit")
     for clause, exp, obs in predicate(case, out)[:3]:
-        ck.witness("C16:long-chain:" + clause, "sectioning a plain chain of %d segments: %s" % (n, clause),
-                   input={"chain_length": n, "root": 0}, expected=jq(exp), observed=jq(obs))
+        ck.witness("C16:long-chain:" + clause, "sectioning an unbranched run of %d proximal-less segments (fraction_along 1) "
+                   "that ends in a fork: %s" % (n, clause),
+                   input={"chain_length": n, "fork": [n, n + 1], "root": 0, "fraction_along": 1}, expected=jq(exp), observed=jq(obs))
     # (b) known finding: one Python frame per nested branch point
     depth = 1050
     case = {"segs": caterpillar_segs(depth), "groups": [], "root": 0, "reorder": True, "optimise": False, "kind": "stored:caterpillar"}
@@ -305,7 +388,7 @@ def signature(case):
     if len(shape) > 12:
         shape = hash(shape) % 100003
     return json.dumps([shape, idx[case["root"]], tuple(by[x][3] is not None for x in order[:12]), len(case["groups"]),
-                       case["reorder"], case["optimise"], by[case["root"]][3] is None], default=str)
+                       case["reorder"], case["optimise"], by[case["root"]][3] is None, case.get("history")], default=str)
 
 
 def run(ck):
@@ -336,6 +419,7 @@ def run(ck):
     for k in range(0, len(cases), B):
         outs += ck.impl("c16_impl.py", {"cases": [payload(c) for c in cases[k:k + B]]}, timeout=900)["results"]
     t2 = time.time()
+    cases = [derive_history_case(ck, c, o) if c.get("history") else c for c, o in zip(cases, outs)]
     for case, out in zip(cases, outs):
         seen = set()
         for clause, exp, obs in predicate(case, out):
@@ -343,13 +427,14 @@ def run(ck):
             if key in seen:
                 continue
             seen.add(key)
-            ck.witness(key, "create_unbranched_segment_group_branches: clause '%s' of the property fails" % clause,
-                       input=payload(case), expected=jq(exp), observed=jq(obs))
+            ck.witness(key, "create_unbranched_segment_group_branches: clause '%s' of the property fails%s"
+                       % (clause, " after the history %s on the same Cell object" % json.dumps(case["history"]) if case.get("history") else ""),
+                       input=wit_input(case), expected=jq(exp), observed=jq(obs))
         ck.count(1, nontrivial_key=signature(case),
                  sample={"kind": case["kind"], "segments": len(case["segs"]), "root": case["root"],
                          "tree_root": case["ref"]["root"], "old_groups": [g[0] for g in case["groups"]],
                          "new_groups": [g[:2] for g in out["groups"] if g[0] not in [x[0] for x in case["groups"]]][:6]})
-        ck.tally(case["kind"])
+        ck.tally(case["kind"] if not case.get("history") else "history")
         ck.tally("root=tree-root" if case["root"] == case["ref"]["root"] else "root=inner-segment")
         ck.tally("optimise=%s,reorder=%s" % (case["optimise"], case["reorder"]))
     t3 = time.time()
@@ -378,7 +463,7 @@ def run(ck):
                 t = HEADER + "Definition k := %s.\nEval vm_compute in (create_branches (k_cell k) (k_groups k) (k_root k) (k_reorder k) (k_optimise k)).\n" % ccase(c, o)
                 ok2, r2, o2 = ck.coq_eval("Model_C16_%d.v" % nmis, t, timeout=300)
                 mo = r2[0][:4000] if ok2 and r2 else o2[-1000:]
-            ck.disagree("Section." + ",".join(COMPONENT.get(x, str(x)) for x in comps), payload(c), mo,
+            ck.disagree("Section." + ",".join(COMPONENT.get(x, str(x)) for x in comps), wit_input(c), mo,
                         {"call": o["call"], "segs": o["segs"], "groups": o["groups"]})
     t4 = time.time()
     ck.extra["exhaustive_tree_shapes_up_to"] = ck.n(5, 6)
@@ -387,6 +472,14 @@ def run(ck):
     ck.extra["phase_seconds"] = {"stored big inputs": round(t1 - t0, 1), "implementation": round(t2 - t1, 1),
                                  "predicate": round(t3 - t2, 1), "kernel diff": round(t4 - t3, 1),
                                  "theorems": round(time.time() - t4, 1)}
+
+
+class _Collect:
+    def __init__(self):
+        self.w = []
+
+    def witness(self, key, what, **kw):
+        self.w.append(key)
 
 
 def replay(ck, data):
@@ -398,9 +491,15 @@ def replay(ck, data):
     segs = [[s[0], s[1], None if s[2] is None else F(s[2]), None if s[3] is None else tuple(F(x) for x in s[3]),
              tuple(F(x) for x in s[4])] for s in case["segs"]]
     c = {"segs": segs, "groups": case["groups"], "root": case["root"], "reorder": case.get("reorder", True),
-         "optimise": case.get("optimise", True), "ref": reference(segs)}
-    bad = predicate(c, out)
-    print(json.dumps({"input": case, "implementation": {"call": out["call"], "groups": out["groups"], "segs": out["segs"]},
+         "optimise": case.get("optimise", True), "history": case.get("history")}
+    col = _Collect()
+    if c["history"]:
+        c = derive_history_case(col, c, out)
+    else:
+        c["ref"] = reference(segs)
+    bad = sorted(set([b[0] for b in predicate(c, out)] + col.w))
+    print(json.dumps({"input": case, "implementation": {"call": out["call"], "groups": out["groups"], "segs": out["segs"],
+                                                        "fresh_equal_cell": out.get("fresh"), "adjacency_cache": out.get("adj_cached")},
                       "stored_expected": data.get("expected"), "stored_observed": data.get("observed")}, indent=1)[:8000])
-    print("property predicate on the implementation:", "FAILS " + ", ".join(sorted(set(b[0] for b in bad))) if bad else "holds")
+    print("property predicate on the implementation:", "FAILS " + ", ".join(bad) if bad else "holds")
     return 1 if bad else 0
